@@ -43,6 +43,9 @@ pub(crate) struct DataEntries {
     pub(crate) entries: Vec<DataEntry>,
     pub(crate) line: usize,
     pub(crate) update_output: bool,
+    /// Input columns whose `X` has been expanded into 0/1 for this row. If such a column is also the
+    /// expected column of a signal, the expected value is still the `X` of the source row.
+    pub(crate) expanded_x: Vec<usize>,
 }
 
 #[derive(Debug)]
@@ -139,6 +142,7 @@ impl<'a> StmtIterator<'a> {
                                 entries,
                                 line: *line,
                                 update_output: true,
+                                expanded_x: vec![],
                             }));
                         }
                         Stmt::Loop {
